@@ -2,7 +2,7 @@
 // real constructor) on the part of the function an edge can denote without a node: the empty function and the
 // terminal `true` met at any level L, which under the forest's reduction rule is the full set / full relation
 // (fully reduced) or the identity pattern (identity reduced).  The recursion of _compute walks down the skipped
-// levels and scales by the level sizes; every level size (unprimed and primed, 1..1023) is symbolic.
+// levels and scales by the level sizes; every level size (unprimed and primed, 1..MAXSZ = 1023) is symbolic.
 //   sets      (levels 2,1)          : |full|     = product of the sizes of levels <= L
 //   relations (levels 2,-2,1,-1)    : |full|     = product of unprimed and primed sizes of levels at or below L
 //                                     |identity| = product of the unprimed sizes of levels at or below L
@@ -21,6 +21,15 @@ using namespace MEDDLY;
 #define RT 0
 #endif
 #define NV 2
+#ifndef MAXSZ
+#define MAXSZ 15
+#endif
+#ifndef REL
+#define REL 1
+#endif
+#ifndef RULE
+#define RULE 2
+#endif
 
 MEDDLY::operation::operation() { name = nullptr; }
 MEDDLY::operation::~operation() { }
@@ -30,31 +39,19 @@ MEDDLY::ct_vector::ct_vector(unsigned sz) : _size(sz) { data = nullptr; vp_assum
 MEDDLY::ct_vector::~ct_vector() { }
 
 static long un[NV + 1], pr[NV + 1];
+static domain* d;
+#if RT == 0
+static card_templ<intcard>* op;
+#else
+static card_templ<realcard>* op;
+#endif
 
-// one case with constant structure (set / relation, rule, level, empty or not): everything the operation
-// branches on is a constant here, so that implementation and specification multiply the same terms
+// one case with constant level and operand: implementation and specification multiply the same terms in the same order
 static void run_case(bool rel, reduction_rule rule, int LL, bool empty)
 {
-  forest* f = forest_record(rel, range_type::BOOLEAN, edge_labeling::MULTI_TERMINAL, rule, edge_type::VOID, terminal_type::BOOLEAN);
-  domain* d = (domain*) calloc(1, sizeof(domain)); d->nVars = NV;
-  d->vars = (variable**) calloc(NV + 1, sizeof(variable*));
-  for (int k = 1; k <= NV; k++) {
-    variable* v = (variable*) calloc(1, sizeof(variable));
-    v->un_bound = int(un[k]); v->pr_bound = int(pr[k]);
-    d->vars[k] = v;
-  }
-  f->d = d;
-  int order[NV + 1]; for (int k = 0; k <= NV; k++) order[k] = k;
-  variable_order* vo = new variable_order(order, NV);
-  *(const variable_order**) &f->var_order = vo;          // (element pointer of the shared_ptr; no control block needed for reading)
-  memstats* ms = new memstats; statset* ss = new statset;
-  new (&f->nodeHeaders) node_headers(*f, *ms, *ss);
-  f->nodeHeaders.initialize();
 #if RT == 0
-  card_templ<intcard>* op = new card_templ<intcard>(f);
   oper_item result(0L);
 #else
-  card_templ<realcard>* op = new card_templ<realcard>(f);
   oper_item result(0.0);
 #endif
   node_handle A = empty ? 0 : -1;
@@ -68,11 +65,11 @@ static void run_case(bool rel, reduction_rule rule, int LL, bool empty)
       // level -k (primed), then level k (unprimed), bottom up
       if (rel) {
         bool primed_in = (k < top) || (LL > 0) || (LL < 0 && k == top);      // is level -k at or below L ?
-        if (primed_in && rule != reduction_rule::IDENTITY_REDUCED) { want *= d->getVariableBound(unsigned(k), true); wantd *= d->getVariableBound(unsigned(k), true); }
+        if (primed_in && rule != reduction_rule::IDENTITY_REDUCED) { want *= d->getVariableBound(unsigned(k), true); wantd *= long(d->getVariableBound(unsigned(k), true)); }
         bool unprimed_in = (k < top) || (LL > 0 && k == top);               // is level k at or below L ?
-        if (unprimed_in) { want *= d->getVariableBound(unsigned(k), false); wantd *= d->getVariableBound(unsigned(k), false); }
+        if (unprimed_in) { want *= d->getVariableBound(unsigned(k), false); wantd *= long(d->getVariableBound(unsigned(k), false)); }
       } else {
-        want *= d->getVariableBound(unsigned(k), false); wantd *= d->getVariableBound(unsigned(k), false);
+        want *= d->getVariableBound(unsigned(k), false); wantd *= long(d->getVariableBound(unsigned(k), false));
       }
     }
   }
@@ -88,13 +85,35 @@ static void run_case(bool rel, reduction_rule rule, int LL, bool empty)
 extern "C" void c11_card()
 {
   compute_table::Monolithic_CT = (compute_table*) calloc(1, 64);
-  for (int k = 1; k <= NV; k++) { un[k] = long(vp_range(1, 1023)); pr[k] = long(vp_range(1, 1023)); }
-  unsigned rl = vp_range(0, 1), rr = vp_range(0, 2), e = vp_range(0, 1);
-  int L = int(vp_range(0, 2 * NV)); if (L > NV) L = NV - L;
-  vp_assume(rl == 1 || (rr != 2 && L >= 0));                      // sets: no identity rule, no primed levels
-  vp_assume(!(rr == 1 && e == 0 && L != 0));                      // a bare `true` above level 0 does not exist in a quasi-reduced forest
+  for (int k = 1; k <= NV; k++) { un[k] = long(vp_range(1, MAXSZ)); pr[k] = long(vp_range(1, MAXSZ)); }
+  // -DREL=0|1 -DRULE=0|1|2 (fully, quasi, identity) fix the kind of forest per query group
   static const reduction_rule RULES[3] = { reduction_rule::FULLY_REDUCED, reduction_rule::QUASI_REDUCED, reduction_rule::IDENTITY_REDUCED };
-  for (unsigned crl = 0; crl < 2; crl++) for (unsigned crr = 0; crr < 3; crr++) for (int LL = -NV; LL <= NV; LL++) for (unsigned ce = 0; ce < 2; ce++)
-    if (rl == crl && rr == crr && L == LL && e == ce) run_case(crl == 1, RULES[crr], LL, ce == 1);
+  forest* f = forest_record(REL == 1, range_type::BOOLEAN, edge_labeling::MULTI_TERMINAL, RULES[RULE], edge_type::VOID, terminal_type::BOOLEAN);
+  d = (domain*) calloc(1, sizeof(domain)); d->nVars = NV;
+  d->vars = (variable**) calloc(NV + 1, sizeof(variable*));
+  for (int k = 1; k <= NV; k++) {
+    variable* v = (variable*) calloc(1, sizeof(variable));
+    v->un_bound = int(un[k]); v->pr_bound = int(pr[k]);
+    d->vars[k] = v;
+  }
+  f->d = d;
+  int order[NV + 1]; for (int k = 0; k <= NV; k++) order[k] = k;
+  variable_order* vo = new variable_order(order, NV);
+  *(const variable_order**) &f->var_order = vo;          // (element pointer of the shared_ptr; no control block needed for reading)
+  memstats* ms = new memstats; statset* ss = new statset;
+  new (&f->nodeHeaders) node_headers(*f, *ms, *ss);
+  f->nodeHeaders.initialize();
+#if RT == 0
+  op = new card_templ<intcard>(f);
+#else
+  op = new card_templ<realcard>(f);
+#endif
+  // level and operand are matched against constants
+  unsigned e = vp_range(0, 1);
+  int L = int(vp_range(0, 2 * NV)); if (L > NV) L = NV - L;
+  vp_assume(REL == 1 || L >= 0);                                  // sets have no primed levels
+  vp_assume(!(RULE == 1 && e == 0 && L != 0));                    // a bare `true` above level 0 does not exist in a quasi-reduced forest
+  for (int LL = -NV; LL <= NV; LL++) for (unsigned ce = 0; ce < 2; ce++)
+    if (L == LL && e == ce) run_case(REL == 1, RULES[RULE], LL, ce == 1);
   vp_reach();
 }
